@@ -21,6 +21,7 @@ class RouterTap:
         self.depth = 0
         self.seq = 0
         self.invalid = []        # (why, kind, detail)
+        self.routed = 0
         self.patch = Patch()
         tap = self
 
@@ -35,6 +36,10 @@ class RouterTap:
                     tap.check_valid(message)
                 tap.depth += 1
                 try:
+                    before = view_lib(message)
+                except Exception:
+                    before = None
+                try:
                     return orig(router, message, sender)
                 except BaseException as e:
                     if tap.depth == 1:
@@ -42,6 +47,16 @@ class RouterTap:
                     raise
                 finally:
                     tap.depth -= 1
+                    # the one message object is handed to every recipient in turn: none of them may change it
+                    if before is not None:
+                        tap.routed += 1
+                        try:
+                            after = view_lib(message)
+                        except Exception as e:
+                            after = ("unreadable", repr(e))
+                        if after != before:
+                            tap.invalid.append((f"routed-message-changed-by-a-recipient:{type(message).__name__}",
+                                                {"before": _brief(before), "after": _brief(after)}, None))
             return process_message
 
         self.patch.wrap(Router, "process_message", make)
@@ -67,7 +82,12 @@ class RouterTap:
             self.invalid.append((f"reads-back-changed:{kind}", {"emitted": v1, "read_back": v2}, wire.decode("latin1")))
 
     def report_invalid(self, ctx, case):
+        ctx.count("routed_messages_checked_for_mutation", self.routed)
+        self.routed = 0
         for why, detail, wire in self.invalid:
+            if why.startswith("routed-message-changed"):
+                ctx.violate(why, f"a message object was different after Router.process_message handed it to its recipients: {detail}", case)
+                continue
             mech = why
             if why.startswith("own-parser-rejects") and "'min'" in str(detail):
                 mech += ":number-without-min-max"
@@ -83,6 +103,11 @@ class RouterTap:
 
     def close(self):
         self.patch.undo()
+
+
+def _brief(v, n=300):
+    r = repr(v)
+    return r if len(r) <= n else r[:n] + f"...[{len(r)} chars]"
 
 
 class RecClient:
